@@ -18,7 +18,7 @@ def oracle(ctx):
 
 
 def check(ctx):
-    return core.standard_check(ctx, ['Blocks'], MODS, [('line', 2500, 40000)], oracle, LEVEL_NOTE, ASSUME)
+    return core.standard_check(ctx, ['Blocks', 'Consts', 'Filter'], MODS, [('line', 2500, 40000), ('gate', 150, 2000), ('proc', 400, 6000)], oracle, LEVEL_NOTE, ASSUME)
 
 
 def replay(ctx, data):
